@@ -15,6 +15,7 @@
  *            When the script is exhausted the call never returns: the run ends as "stuck".
  * stdout: one line per script
  *     R out=<return|fatal|stuck|hang> log=<event>,<event>,...      (same text as extract/job/driver.ml)
+ *   hang: job_accept made no call for argv[1] seconds (busy loop); the harness then exits with status 3.
  */
 #define _GNU_SOURCE
 #include <errno.h>
@@ -380,6 +381,9 @@ main (int argc, char **argv)
         alarm (0);
         printf ("R out=%s log=%s\n", outcome, loglen ? logbuf : "-");
         fflush (stdout);
+        if (strcmp (outcome, "hang") == 0) {
+            _exit (3);                       /* the caller restarts the harness for the remaining scripts */
+        }
     }
     return 0;
 }
